@@ -405,6 +405,14 @@ type vfDB struct {
 	pool      *TempPool
 	cachesize int
 
+	// writercache > 0: state cache size of the block writers (default: cachesize); seqstates: the states of a
+	// block are set one by one (SetStates of several states uses parallel workers: with a cache smaller than the
+	// block the surviving entries would be a matter of scheduling); permbatch > 0: LeveldbPermanent.batchlimit
+	// (default 333) lowered so that a small block is merged in several batches
+	writercache int
+	seqstates   bool
+	permbatch   int
+
 	// shared != nil: every block writer gets this one state cache, never purged (what launch's
 	// purgeStateCacheFunc hands to the importers of the syncer: one LFU cache behind
 	// util.NewPurgeFuncGCache whose purge function says no for every block but the last one)
@@ -435,6 +443,10 @@ func (db *vfDB) open() {
 	vfMust(err)
 
 	db.perm = perm
+
+	if db.permbatch > 0 {
+		perm.batchlimit = db.permbatch
+	}
 
 	center, err := NewCenter(st, db.env.encs, db.env.enc, perm, func(height base.Height) (isaac.BlockWriteDatabase, error) {
 		return NewLeveldbBlockWrite(height, st, db.env.encs, db.env.enc), nil
@@ -545,19 +557,37 @@ func (db *vfDB) newWriter(b *vfBlock) isaac.BlockWriteDatabase {
 		return wst
 	}
 
-	vfFillWriter(wst, b, db.cachesize)
+	size := db.cachesize
+	if db.writercache > 0 {
+		size = db.writercache
+	}
+
+	vfFillWriterSeq(wst, b, size, db.seqstates)
 
 	return wst
 }
 
 func vfFillWriter(wst isaac.BlockWriteDatabase, b *vfBlock, cachesize int) {
+	vfFillWriterSeq(wst, b, cachesize, false)
+}
+
+func vfFillWriterSeq(wst isaac.BlockWriteDatabase, b *vfBlock, cachesize int, seqstates bool) {
 	if cachesize > 0 {
 		wst.(isaac.StateCacheSetter).SetStateCache( //nolint:forcetypeassert //...
 			util.NewLFUGCache[string, [2]interface{}](cachesize))
 	}
 
 	vfMust(wst.SetBlockMap(b.mp))
-	vfMust(wst.SetStates(b.states))
+
+	switch {
+	case seqstates:
+		for i := range b.states {
+			vfMust(wst.SetStates(b.states[i : i+1]))
+		}
+	default:
+		vfMust(wst.SetStates(b.states))
+	}
+
 	vfMust(wst.SetOperations(b.known))
 
 	if b.proof != nil {
